@@ -423,6 +423,15 @@ fn run_real(kind: Kind, src: &Src, h: &[Call]) -> RealOut {
       let n = src_obs.lock().unwrap().iter().filter(|o| o.is_subscribed()).count();
       src_live.lock().unwrap().push(n);
     }
+    // end what is still live after the last probe (a live subscription legitimately keeps its
+    // pipeline alive; over 10^7..10^8 histories that memory adds up)
+    step.store(h.len(), Ordering::Relaxed);
+    for s in subs.iter().flatten() {
+      s.unsubscribe();
+    }
+    if let Some(c) = &connection {
+      c.unsubscribe();
+    }
   }));
   set_monitor_mode(false);
   let fault = match r {
@@ -434,7 +443,9 @@ fn run_real(kind: Kind, src: &Src, h: &[Call]) -> RealOut {
   };
   let mut per_step = vec![vec![vec![]; n_obs]; h.len()];
   for (st, o, e) in log.lock().unwrap().iter() {
-    per_step[*st][*o].push(e.clone());
+    if *st < h.len() {
+      per_step[*st][*o].push(e.clone());
+    }
   }
   let sl = src_live.lock().unwrap().clone();
   let total = src_obs.lock().unwrap().len();
